@@ -44,6 +44,19 @@ Theorem C02_corruption_changes_xor :
 Proof. exact xor_single_change. Qed.
 Print Assumptions C02_corruption_changes_xor.
 
+(* every single-byte corruption inside the body of an accepted line (any position, any replacement
+   byte other than '*'; the tag block, delimiter, checksum text and tail unchanged) is rejected, in
+   every parser state, with decoding on or off.  (A replacement by '*' moves the end of the checked
+   region; such a line is covered by C02_accept_only_if like any other.) *)
+Theorem C02_single_byte_corruption_rejected :
+  forall c q st d tb start a x y b hex tail,
+    tag_block tb -> start = 33 \/ start = 36 -> hex_run hex tail ->
+    no_byte 42 (a ++ x :: b) -> y <> 42 -> x <> y ->
+    xor_fold (a ++ x :: b) = checksum_read hex ->
+    forall fr, snd (step c q st (tb ++ start :: (a ++ y :: b) ++ 42 :: hex ++ tail) d) <> Ok fr.
+Proof. exact corrupted_body_rejected. Qed.
+Print Assumptions C02_single_byte_corruption_rejected.
+
 (* non-vacuity: the README sentence is shaped, its checksum matches, and it is accepted *)
 Example C02_nonvacuous :
   exists fr, snd (step Std quirks_asis p_init (bytes "!AIVDM,1,1,,B,E>kb9O9aS@7PUh10dh19@;0Tah2cWrfP:l?M`00003vP100,0*01") false) = Ok fr.
